@@ -5,6 +5,8 @@
 
 #pragma once
 
+#include "verif_hook.h"
+
 namespace yakushima {
 
 /**
@@ -12,6 +14,7 @@ namespace yakushima {
  */
 template<typename T>
 static T loadRelaxed(T& ptr) {
+    YAKUSHIMA_VERIF_HOOK(YAKUSHIMA_VERIF_LOAD, &ptr);
     return __atomic_load_n(&ptr, __ATOMIC_RELAXED); // NOLINT
 }
 
@@ -20,11 +23,13 @@ static T loadRelaxed(T& ptr) {
  */
 template<typename T>
 static T loadAcquireN(T& ref) {                     // NOLINT
+    YAKUSHIMA_VERIF_HOOK(YAKUSHIMA_VERIF_LOAD, &ref);
     return __atomic_load_n(&ref, __ATOMIC_ACQUIRE); // NOLINT
 }
 
 template<class type>
 void loadAcquire(type* ptr, type* ret) {
+    YAKUSHIMA_VERIF_HOOK(YAKUSHIMA_VERIF_LOAD, ptr);
     __atomic_load(ptr, ret, __ATOMIC_ACQUIRE); // NOLINT
 }
 
@@ -33,6 +38,7 @@ void loadAcquire(type* ptr, type* ret) {
  */
 template<typename T, typename T2>
 static void storeRelaxed(T& ptr, T2 val) {
+    YAKUSHIMA_VERIF_HOOK(YAKUSHIMA_VERIF_STORE, &ptr);
     __atomic_store_n(&ptr, static_cast<T>(val), __ATOMIC_RELAXED); // NOLINT
 }
 
@@ -41,11 +47,13 @@ static void storeRelaxed(T& ptr, T2 val) {
  */
 template<typename T, typename T2>
 static void storeReleaseN(T& ptr, T2 val) {
+    YAKUSHIMA_VERIF_HOOK(YAKUSHIMA_VERIF_STORE, &ptr);
     __atomic_store_n(&ptr, static_cast<T>(val), __ATOMIC_RELEASE); // NOLINT
 }
 
 template<class type>
 void storeRelease(type* ptr, type* val) {
+    YAKUSHIMA_VERIF_HOOK(YAKUSHIMA_VERIF_STORE, ptr);
     __atomic_store(ptr, val, __ATOMIC_RELEASE); // NOLINT
 }
 
@@ -59,6 +67,7 @@ bool weakCompareExchange(type* ptr, type* expected, type* desired) {
      * (type *ptr, type *expected, type desired, bool weak, int success_memorder, int
      * failure_memorder)
      */
+    YAKUSHIMA_VERIF_HOOK(YAKUSHIMA_VERIF_STORE, ptr);
     return __atomic_compare_exchange_n(ptr, expected, *desired, true, // NOLINT
                                        __ATOMIC_ACQ_REL, __ATOMIC_ACQUIRE);
 }
